@@ -64,9 +64,9 @@ static void dense_literals() {
     static std::string ring, comb, zig; char b[96];
     ring = "POLYGON(("; for (int i = 0; i <= 64; i++) { double a = 6.283185307179586 * (i % 64) / 64.0, r = 5.0 + 0.05 * (i % 2);
         snprintf(b, sizeof b, "%s%.6f %.6f", i ? "," : "", 5 + r * cos(a), 5 + r * sin(a)); ring += b; } ring += "))";
-    comb = "MULTILINESTRING("; for (int i = 0; i < 48; i++) { double x = 0.2 * i, y = 3 + 0.05 * (i % 5);
+    comb = "MULTILINESTRING("; for (int i = 0; i < 24; i++) { double x = 0.2 * i, y = 3 + 0.05 * (i % 5);
         snprintf(b, sizeof b, "%s(%.6f %.6f,%.6f %.6f)", i ? "," : "", x, y, x + 0.1, y + 0.07); comb += b; } comb += ")";
-    zig = "LINESTRING("; for (int i = 0; i < 96; i++) { snprintf(b, sizeof b, "%s%.6f %.6f", i ? "," : "", 0.1 * i, 5 + 0.04 * (i % 3)); zig += b; } zig += ")";
+    zig = "LINESTRING("; for (int i = 0; i < 24; i++) { snprintf(b, sizeof b, "%s%.6f %.6f", i ? "," : "", 0.1 * i, 5 + 0.04 * (i % 3)); zig += b; } zig += ")";
     WKT[NWKT - 7] = ring.c_str(); WKT[NWKT - 6] = comb.c_str(); WKT[NWKT - 5] = zig.c_str();
     static std::string longw[4]; static const size_t LEN[4] = {900, 1100, 5000, 70000};
     for (int i = 0; i < 4; i++) { longw[i] = std::string(LEN[i], 'Q'); WKT[NWKT - 4 + i] = longw[i].c_str(); }
